@@ -152,6 +152,11 @@ def scenarios(ctx):
                    inpubs=((2, False, False, 1, 'short'),), inrels=((1,),),
                    connects=[(False, 0, 4)], reconnects=[(False, 0, 4)],
                    budgets=dict(tick=1), addr_budgets=[S, dict(sub=1, ack=1, inpub=1, inrel=1, tick=1 if not q else 0)]))
+    CLEAN = (('connect', 0, True, 0, 4), ('connack', 0, 0, False), ('connect', 1, True, 0, 4), ('connack', 1, 0, False))
+    out.append(Std('A-clean-loses', profile='pubsub', naddr=2, init=CLEAN, closing=False, pub_qos=(1, 2),
+                   reconnects=[(True, 0, 4), (False, 0, 4)], budgets=dict(tick=1),
+                   addr_budgets=[dict(pub=1, sub=1, ack=1, lose=1, rebuild=1, connect=1, connack=1, tick=1),
+                                 dict(pub=1, ack=1, tick=1, lose=0 if q else 1, rebuild=0 if q else 1)]))
     # S4: keepalive machinery of the two connections (one broker silent, the other answering)
     KA = (('connect', 0, True, 2, 4), ('connack', 0, 0, False), ('connect', 1, True, 2, 4), ('connack', 1, 0, False))
     out.append(Std('keepalive', profile='pub', naddr=2, init=KA, closing=False, pub_qos=(1,),
